@@ -24,3 +24,34 @@ package labelmap
 //@   modifies *
 //@   assert at "if loadMutations {": forall u dvid.VersionID :: has(vc.mappedVersions[ancestor], u) ==> (exists k int :: 0 <= k && k < len(ancestors[pos:]) && ancestors[pos:][k] == u)
 //@   assert at "if loadMutations {": has(vc.mappedVersions[ancestor], ancestor)
+
+// ---- read-modify-write of a body's label index is one critical section of its shard mutex (C11, C08) ----
+// Two overlapping cleaves (or a cleave and an index change) of one body must not both start from the
+// same stored index: the index is fetched, changed and stored while indexMu[shard] is held in write
+// mode, without releasing it in between.
+
+//@ func Data.cleaveIndex
+//@   prop C11 C08
+//@   requires d != nil
+//@   safety_off
+//@   calls_havoc
+//@   lockbalance
+//@   modifies *
+//@   ghost ep int = 0
+//@   ghostset at "if idx, err = getCachedLabelIndex(d, v, op.Target); err != nil {": ep = lockepoch("indexMu[shard]")
+//@   assert at "if idx, err = getCachedLabelIndex(d, v, op.Target); err != nil {": heldw("indexMu[shard]")
+//@   assert at "cleavedSize, remainSize, cidx = idx.Cleave(op.CleavedLabel, op.CleavedSupervoxels, mutInfo)": heldw("indexMu[shard]") && lockepoch("indexMu[shard]") == ep
+//@   assert at "err = putCachedLabelIndex(d, v, idx)": heldw("indexMu[shard]") && lockepoch("indexMu[shard]") == ep
+
+//@ func ChangeLabelIndex
+//@   prop C11 C08
+//@   safety_off
+//@   calls_havoc
+//@   lockbalance
+//@   modifies *
+//@   ghost ep int = 0
+//@   ghostset at "idx, err := getCachedLabelIndex(d, v, label)": ep = lockepoch("indexMu[shard]")
+//@   assert at "idx, err := getCachedLabelIndex(d, v, label)": heldw("indexMu[shard]")
+//@   assert at "if err := idx.ModifyBlocks(label, delta); err != nil {": heldw("indexMu[shard]") && lockepoch("indexMu[shard]") == ep
+//@   assert at "return putCachedLabelIndex(d, v, idx)": heldw("indexMu[shard]") && lockepoch("indexMu[shard]") == ep
+//@   assert at "return deleteCachedLabelIndex(d, v, label)": heldw("indexMu[shard]") && lockepoch("indexMu[shard]") == ep
